@@ -452,13 +452,17 @@ mod builtins {
                     None => (0, lower),
                 };
 
+                // the distance between two isize values and the negation of
+                // isize::MIN do not fit into an isize, so this is calculated
+                // with a wider type.
+                let (wide_start, wide_end, wide_step) = (start as i128, end as i128, step as i128);
                 let len = if start <= end {
                     0
                 } else {
-                    ((start - end + (-step) - 1) / (-step)) as usize
+                    ((wide_start - wide_end - wide_step - 1) / -wide_step) as usize
                 };
 
-                let iter = (0..len).map(move |i| start + (i as isize) * step);
+                let iter = (0..len).map(move |i| (wide_start + (i as i128) * wide_step) as isize);
                 to_result(iter)
             }
         }
